@@ -1530,6 +1530,87 @@ Theorem ff_innov_sound : forall time_step times sensors fuel,
             m < nth (i + 1) times 0.
 Proof. intros until 3. apply ff_innov_sound_oracle; auto. Qed.
 
+(* ---------- the step bound read off the result tables ---------------------- *)
+
+(* `adjacent P l e`: P holds of every element of l and its successor, the
+   successor of the last element being e *)
+Fixpoint adjacent (P : Q -> Q -> Prop) (l : list Q) (e : Q) : Prop :=
+  match l with
+  | [] => True
+  | a :: r => P a (hd e r) /\ adjacent P r e
+  end.
+
+Lemma chain_adjacent : forall (f : nat -> Q) (P : nat -> nat -> Prop) l a b,
+  chain a l b -> (forall i j, In (i, j) l -> P i j) ->
+  adjacent (fun x y => exists i j, x = f i /\ y = f j /\ P i j)
+           (map (fun p => f (fst p)) l) (f b).
+Proof.
+  intros f P l. induction l as [|[i j] r IH]; intros a b Hc HP; [exact I|].
+  cbn [chain] in Hc. destruct Hc as [-> Hc].
+  cbn [map fst adjacent]. split.
+  - exists a, j. split; [reflexivity|]. split; [|apply HP; now left].
+    destruct r as [|[i' j'] r']; cbn [map hd fst].
+    + cbn [chain] in Hc. now subst.
+    + cbn [chain] in Hc. destruct Hc as [-> _]. reflexivity.
+  - apply (IH j b Hc). intros i' j' H. apply HP. now right.
+Qed.
+
+(* every row of the result tables and the next row (for the last row: the end
+   of the data) are one propagation step apart *)
+Theorem ff_table_step_bound_oracle : forall add_step times sensors fuel,
+  sorted times -> (2 <= length times)%nat ->
+  (length times - 1 <= fuel)%nat ->
+  adjacent (fun a b => exists i, (i + 1 < length times)%nat /\ a = nth i times 0 /\ a < b /\
+                                 (b = nth (i + 1) times 0 \/ b <= add_step a))
+           (record_times (ff_run fuel add_step times sensors))
+           (nth (length times - 1) times 0).
+Proof.
+  intros add_step times sensors fuel Hsorted Hlen Hfuel.
+  destruct (ff_records_oracle add_step times sensors fuel Hsorted Hlen Hfuel)
+    as (_ & _ & _ & Hrec).
+  destruct (ff_positive_propagate_oracle add_step times sensors fuel Hsorted Hlen Hfuel)
+    as (Hpos & Hchain).
+  pose proof (ff_step_bound_oracle add_step times sensors fuel Hsorted Hlen Hfuel) as Hb.
+  cbv zeta in Hrec, Hpos, Hchain. rewrite Hrec.
+  pose proof (chain_adjacent (fun i => nth i times 0)
+    (fun i j => (i < j)%nat /\ (j < length times)%nat /\
+                nth i times 0 < nth j times 0 /\
+                (j = (i + 1)%nat \/ nth j times 0 <= add_step (nth i times 0)))
+    _ _ _ Hchain) as Hadj.
+  assert (HP : forall i j, In (i, j) (propagations (ff_run fuel add_step times sensors)) ->
+             (i < j)%nat /\ (j < length times)%nat /\ nth i times 0 < nth j times 0 /\
+             (j = (i + 1)%nat \/ nth j times 0 <= add_step (nth i times 0))).
+  { intros i j H. destruct (Hpos i j H) as (H1 & H2 & H3). specialize (Hb i j H). tauto. }
+  specialize (Hadj HP). clear - Hadj.
+  induction (propagations (ff_run fuel add_step times sensors)) as [|p r IH]; [exact I|].
+  cbn [map adjacent] in *. destruct Hadj as [H1 H2]. split; [|now apply IH].
+  destruct H1 as (i & j & Ha & Hbj & Hij & Hj & Hlt & Hor).
+  exists i. split; [lia|]. split; [assumption|]. rewrite Hbj, Ha. split; [assumption|].
+  destruct Hor as [->|Hor]; [now left|now right].
+Qed.
+
+Theorem ff_table_step_bound : forall time_step times sensors fuel,
+  sorted times -> (2 <= length times)%nat ->
+  (length times - 1 <= fuel)%nat ->
+  adjacent (fun a b => exists i, (i + 1 < length times)%nat /\ a = nth i times 0 /\ a < b /\
+                                 b - a <= Qmax time_step (nth (i + 1) times 0 - nth i times 0))
+           (record_times (ff_run_exact fuel time_step times sensors))
+           (nth (length times - 1) times 0).
+Proof.
+  intros time_step times sensors fuel Hsorted Hlen Hfuel.
+  pose proof (ff_table_step_bound_oracle (fun t => t + time_step) times sensors fuel
+                Hsorted Hlen Hfuel) as H.
+  unfold ff_run_exact.
+  induction (record_times (ff_run fuel (fun t => t + time_step) times sensors)) as [|a r IH];
+    [exact I|].
+  cbn [adjacent] in *. destruct H as [H1 H2]. split; [|now apply IH].
+  destruct H1 as (i & Hi & Ha & Hlt & Hor). exists i. split; [assumption|].
+  split; [assumption|]. split; [assumption|].
+  destruct Hor as [Hb|Hb].
+  - rewrite Hb, Ha. apply Q.le_max_r.
+  - eapply Qle_trans; [|apply Q.le_max_l]. lra.
+Qed.
+
 (* ========================================================================= *)
 (*  The guards are necessary: the same loops without them are refuted         *)
 (* ========================================================================= *)
